@@ -392,7 +392,15 @@ def run_case(case, ctx):
                     sup.append(raising())
 
                 async def idle():
-                    await asyncio.sleep(T_END)
+                    try:
+                        await asyncio.sleep(T_END)
+                    except asyncio.CancelledError:
+                        # a supporting task whose own clean-up takes a while: run() has to
+                        # await it whatever the simulation ended with
+                        hist.log('sup_cleanup_begin')
+                        await asyncio.sleep(0.2)
+                        hist.log('sup_cleanup_end')
+                        raise
                 if mode == 'U':
                     sup.append(idle())
                 # mode 'N': run() without supporting coroutines executes run_forever() itself
@@ -419,6 +427,19 @@ def run_case(case, ctx):
                 except Exception as err:    # pylint: disable=broad-except
                     hist.log('traffic_refused', repr(err)[:60])
             loop.call_at(t0 + 5.0, traffic)
+
+            def early_init():
+                # an event initialises a block whose init_async is still running (documented:
+                # the block is initialised early); its init task must not outlive a termination
+                # that arrives during the asynchronous initialisation either
+                for name in ('i5', 'i3'):
+                    try:
+                        edzed.ExtEvent(objs[name], 'init').send()
+                        hist.log('early_init_sent', name)
+                    except Exception as err:    # pylint: disable=broad-except
+                        hist.log('traffic_refused', repr(err)[:60])
+            if case.get('early_init'):
+                loop.call_at(t0 + 1.0, early_init)
 
             async def final():
                 await asyncio.sleep(T_END)
@@ -576,7 +597,14 @@ def judge(case, hist, state, res, ctx):
     if res['pending_user_tasks']:
         raise core.Violation('task-pending-after-end', f"{where}: {res['pending_user_tasks']}")
     harness_kinds = ('cause', 'cause_exc', 'traffic_refused', 'shutdown_exc', 'sigterm_unhandled',
-                     'sigterm_chained')
+                     'sigterm_chained', 'sup_cleanup_begin', 'sup_cleanup_end', 'early_init_sent')
+    if any(e[2] == 'sup_cleanup_begin' for e in E):
+        ctx.count('supporting_task_with_slow_cleanup')
+        if not any(e[2] == 'sup_cleanup_end' and e[0] < end_seq for e in E):
+            raise core.Violation(
+                'supporting-task-not-awaited',
+                f"{where}: run() returned although a cancelled supporting task had not finished "
+                "its own clean-up yet")
     # SIGTERM while edzed.run() is still at work (incl. its wait for the end of the clean-up)
     # must be caught by its handler: the default action would kill the process at once
     if case['mode'] in ('U', 'N'):
@@ -662,7 +690,8 @@ def judge(case, hist, state, res, ctx):
     if first_stop is not None:
         t_first = E[first_stop][1]
         limit = max([b[2] for b in res['blocks'] if b[1] and started.get(b[0])] or [0.0])
-        if res['end_vt'] - t_first > limit + 1e-3:
+        # (mode U: plus the 0.2 s the harness's own supporting task needs for its clean-up)
+        if res['end_vt'] - t_first > limit + (0.2 if case['mode'] == 'U' else 0.0) + 1e-3:
             raise core.Violation('cleanup-not-bounded',
                                  f"{where}: clean-up took {res['end_vt'] - t_first:.3f} s, largest "
                                  f"stop_timeout {limit}")
@@ -784,6 +813,8 @@ def gen(ctx):
             c2 = dict(c, perturb=(i + p) % 4)
             if (i + p) % 5 == 0:
                 c2['comp'] = 'small'
+            if (i + p) % 3 == 0:
+                c2['early_init'] = True
             out.append(c2)
     for i, c in enumerate(out):
         if i % ctx.nshards == ctx.shard:
